@@ -152,6 +152,8 @@ func C13(c *Ctx) {
 	progs := append(cases.Opt(), cases.OptGen()...)
 	// closures and pointers created by ordinary code inside generators must keep denoting the same variables
 	progs = append(progs, cases.Scope()...)
+	// ... and range loops written in plain closures of generators (labels, goto, effectful key operands)
+	progs = append(progs, cases.Range()...)
 	nby := 150
 	if c.Thorough() {
 		nby = 2000
